@@ -208,7 +208,7 @@ func zzCRQEqual(a, b *MessageCertificateRequest) bool {
 // declared length are never consumed, i.e. an accepted input must yield only algorithms made of bytes
 // inside the declared vector (at most floor(len/2) of them).
 //
-//symgo:entry covers=crq_odd_accepted
+//symgo:entry covers=crq_odd_decided
 func zzCertificateRequestOddSigAlgs() {
 	odd := 1 + 2*zzsymChoice("odd", zzsymParam("NCRQODD"))
 	// 00 | 00 odd | <odd bytes> | caLen(2) = 00 00
@@ -217,9 +217,10 @@ func zzCertificateRequestOddSigAlgs() {
 	zzsymAssume(zzsymAnd(data[1] == 0, data[2] == byte(odd)))
 	m := &MessageCertificateRequest{}
 	if m.Unmarshal(data) != nil {
+		zzsymCover("crq_odd_decided") // refusing a list of odd length is the repaired behaviour
 		return
 	}
-	zzsymCover("crq_odd_accepted")
+	zzsymCover("crq_odd_decided")
 	zzsymAssert(len(m.SignatureHashAlgorithms) <= odd/2, "declared_len/CertificateRequest_sigalgs_odd")
 }
 
